@@ -76,7 +76,7 @@ EXTRA = {
  "C11": "Since the eighth round: 30 % of the runs install a WithKeyFunc whose keys differ from the phone numbers, part of them without a key for heartbeats (served, not joined; the next message with a key joins).",
  "C13": "Since the eighth round: listen failure as a fault (Run returns, nobody connects): commands issued before, while and after it must return.",
  "C15": "Since the eighth round: a later alarm on the same connection uploads a new file under an already used name (a completion report is judged against every file of that name announced so far); names may contain a zero byte.",
- "C16": "Since the eighth round: a later alarm reuses a file name, with losses and a resupply round in the new upload.",
+ "C16": "Since the eighth round: a later alarm reuses a file name, with losses and a resupply round in the new upload; since the tenth round re-sent data packets.",
  "C18": "Since the eighth round: part of the runs keep the library's default event objects, so that their fields are in the detector's view; C09's and C11's new scenarios are inherited.",
  "C19": "Since the eighth round: announced names longer than the 50-byte name field of a data packet whose first 50 bytes are a harmless local path (data packets carry the prefix). Since the ninth round: a user-written data handler (WithDataHandleFunc) in front of the default file handler in 12 % of the non-HLJ runs.",
  "C20": "Since the eighth round: requests for unsupported commands between frames (no frame, no serial consumed) and custom location bodies of 999..1023 bytes.",
